@@ -26,6 +26,7 @@
 //            - when it is not a declaration
 //   # lines are statistics.
 #include <ipr/impl>
+#include <set>
 #include <ipr/traversal>
 #include <cxxabi.h>
 #include <cstdio>
@@ -257,10 +258,47 @@ template<class S> void static_views(const char* label, const S& s)
    else if constexpr (LeafNode<S>) static_view<S>(label, s);
 }
 
+// A declaration reached AGAIN through the containers that hold it -- its declaration set, the member sequence of the scope it was
+// entered in (each scope once), the look-up by name and type -- is observed through the very reference those hand out: the same
+// class must answer alike by whichever route it is reached (a container may keep its members as untyped addresses).
+static void observe_through_containers(const char* label, const ipr::Decl& d)
+{
+   static std::set<const void*> swept;
+   const std::string l = label;
+   try { for (auto& x : d.decl_set()) observe((l + " [a member of decl_set()]").c_str(), x); } catch (const std::logic_error&) { }
+   try {
+      const ipr::Scope& sc = d.lexical_region().bindings();
+      if (swept.insert(&sc).second)
+         for (auto& x : sc.elements()) observe((l + " [an element of its scope]").c_str(), x);
+      if (auto ov = sc[d.name()]) {
+         observe((l + " [scope[name]]").c_str(), ov.get());
+         if (auto r = ov.get()[d.type()]) observe((l + " [scope[name][type]]").c_str(), r.get());
+      }
+   } catch (const std::logic_error&) { }
+}
+
+// A classic expression whose `implementation()` has been resolved (the field a front end fills in after overload resolution) is
+// the same node of the same category: observed once more in that state.
+template<class N> void observe_with_implementation(const char* label, N& node)
+{
+   if constexpr (requires { node.op_impl = static_cast<const ipr::Expr*>(nullptr); }) {
+      static impl::Lexicon aux;
+      node.op_impl = aux.make_id_expr(aux.get_identifier(u8"operator_function"));
+      observe((std::string(label) + " (implementation() set)").c_str(), node);
+   }
+}
+
 template<class T> void obs(const char* label, const T& r)
 {
-   if constexpr (std::is_pointer_v<T>) { observe(label, *r); static_views(label, *r); }
-   else { observe(label, r); static_views(label, r); }
+   if constexpr (std::is_pointer_v<T>) {
+      observe(label, *r); static_views(label, *r);
+      if constexpr (std::is_base_of_v<ipr::Decl, std::remove_cv_t<std::remove_pointer_t<T>>>) observe_through_containers(label, *r);
+      if constexpr (not std::is_const_v<std::remove_pointer_t<T>>) observe_with_implementation(label, *r);
+   }
+   else {
+      observe(label, r); static_views(label, r);
+      if constexpr (std::is_base_of_v<ipr::Decl, T>) observe_through_containers(label, r);
+   }
 }
 
 // ---- static facts --------------------------------------------------------------------------------------------------
@@ -588,6 +626,35 @@ static void build_and_observe(unsigned variant)
    obs("make_while", lex.make_while());
    obs("make_for", lex.make_for());
    obs("make_for_in", lex.make_for_in());
+
+   // -- depth: a visitor that, from inside its hook, visits the operand -- over an expression nested `depth` levels deep.  Every level's
+   //    hook is entered exactly once and view<K> answers at every depth (a traversal keeps as many visits in progress as the graph is deep).
+   for (int depth : { 1, 200, 255, 256, 257, 300, 1000, 5000 }) {
+      const ipr::Expr* x = lex.make_literal(U, u8"0");
+      const ipr::Expr* innermost = x;
+      for (int i = 0; i < depth; ++i) x = lex.make_not(*x);
+      struct Deep : ipr::Visitor {
+         long nots = 0, literals = 0, others = 0, blind = 0;
+         void visit(const ipr::Node&) override { ++others; }
+         void visit(const ipr::Expr&) override { ++others; }
+         void visit(const ipr::Classic&) override { ++others; }
+         void visit(const ipr::Name&) override { ++others; }
+         void visit(const ipr::Type&) override { ++others; }
+         void visit(const ipr::Directive&) override { ++others; }
+         void visit(const ipr::Stmt&) override { ++others; }
+         void visit(const ipr::Decl&) override { ++others; }
+         void visit(const ipr::Literal&) override { ++literals; }
+         void visit(const ipr::Not& n) override
+         {
+            ++nots;
+            if (util::view<ipr::Not>(n) != &n) ++blind;
+            n.operand().accept(*this);
+         }
+      } deep;
+      x->accept(deep);
+      std::printf("deep\tdepth=%d\tnots=%ld\tliterals=%ld\tothers=%ld\tblind=%ld\tviewinner=%d\n", depth, deep.nots, deep.literals, deep.others, deep.blind,
+                  util::view<ipr::Literal>(*innermost) == innermost ? 1 : 0);
+   }
 
    // -- the same classes once more, built with EVERY value of the operands that are data (enumerations, bit sets, levels), the zero
    //    value first, and with enclosed operands of several categories (also of the node's own category): what a node answers for
